@@ -63,6 +63,10 @@ CHECKS = {
    "per generated package of the codec corpus, streams of 2-8 back-to-back records of mixed types (real EncodeBebop output) are decoded from one metering reader under ~10 fixed fragmentation schedules plus a chunk boundary at every wire-role boundary of the first record; after every record the reader position, the decoded value and Size() are checked, and the end of stream after the last one",
    "held on ~2e4 (stream, schedule) pairs per quick run; schedules are a finite family, not all interleavings; every (type, value) of the pool occurs in at least one stream",
    "runtime monitoring: history oracle (sequence equality + byte conservation per record) over read-fragmentation schedules with a metering reader"),
+ "C08": ("fault_enumeration",
+   "per record type of the codec corpus and several values: EVERY Write call index of EncodeBebop fails (persistent generic error, io.ErrShortWrite with partial write, io.EOF, and a fail-once writer) and EVERY byte offset of DecodeBebop's input is followed by a failing reader (generic, timeout-like, io.ErrUnexpectedEOF); per fault point: non-nil error, no panic / death / runaway / CPU budget, bounded allocation; fault-free EncodeBebop == MarshalBebop",
+   "exhaustive over fault points per value (7e5 per quick run), sampled over values and schemas",
+   "runtime monitoring: exhaustive I/O fault injection through metering reader/writer wrappers"),
 }
 DESIGN = {i: "DESIGN.md section 4, %s" % i for i in CHECKS}
 
